@@ -12,6 +12,17 @@ def hexDigit (c : Char) : Option Nat :=
 /-- Parses `"-"` (empty) or an even-length hex string. -/
 def parseHex (s : String) : Option (List UInt8) :=
   if s = "-" then some []
+  else if s.startsWith "~" then
+    -- compact run notation `~TTxN`: the N bytes TT, TT+1, ... (wrapping); same form as the harness
+    match (s.drop 1).toString.splitOn "x" with
+    | [t, n] =>
+      match t.toList, n.toNat? with
+      | [a, b], some k =>
+        match hexDigit a, hexDigit b with
+        | some x, some y => some ((List.range k).map (fun i => UInt8.ofNat ((16 * x + y + i) % 256)))
+        | _, _ => none
+      | _, _ => none
+    | _ => none
   else
     let rec go (cs : List Char) (acc : Array UInt8) : Option (List UInt8) :=
       match cs with
